@@ -468,6 +468,8 @@ def constrained_leaf(draw):
             return {"type": t, draw(st.sampled_from(["minimum", "exclusiveMinimum"])): b}, [b - 1, b, b + 1]
         if kind == "max":
             return {"type": t, draw(st.sampled_from(["maximum", "exclusiveMaximum"])): b}, [b - 1, b, b + 1]
+        if draw(st.booleans()):
+            return {"type": t, "multipleOf": 2}, [10 ** 17 + 1, 10 ** 17, 2 ** 53 + 1, 4]      # beyond the exact range of a double
         return {"type": t, "multipleOf": 3}, [3, 4, 6, 7]
     if kind == "minlen":
         return {"type": "string", "minLength": 2}, ["a", "ab", "abc", ""]
@@ -527,7 +529,8 @@ def campaign(ctx):
     # every constraint keyword x every position a subschema can take (alone and as a branch of each combinator), with values on both
     # sides of the bound: enumerated completely on every run (seed independent)
     LEAVES = [({"type": "integer", "minimum": 3}, [2, 3, 4]), ({"type": "integer", "exclusiveMinimum": 3}, [3, 4]), ({"type": "number", "maximum": 3}, [3, 4, 2.5]),
-              ({"type": "integer", "exclusiveMaximum": 3}, [2, 3]), ({"type": "integer", "multipleOf": 3}, [3, 4]), ({"type": "string", "minLength": 2}, ["a", "ab"]),
+              ({"type": "integer", "exclusiveMaximum": 3}, [2, 3]), ({"type": "integer", "multipleOf": 3}, [3, 4]), ({"type": "integer", "multipleOf": 2}, [10 ** 17 + 1, 10 ** 17, 2 ** 53 + 1]), ({"type": "number", "multipleOf": 2}, [10 ** 17 + 1, 9007199254740993]),
+              ({"type": "integer", "minimum": 2 ** 53}, [2 ** 53 - 1, 2 ** 53, 2 ** 53 + 1]), ({"type": "integer", "exclusiveMaximum": 2 ** 53 + 1}, [2 ** 53, 2 ** 53 + 1]), ({"type": "string", "minLength": 2}, ["a", "ab"]),
               ({"type": "string", "maxLength": 2}, ["ab", "abc"]), ({"type": "string", "pattern": "^[a-z]+$"}, ["ab", "a1"]), ({"type": "string", "enum": ["a", "b"]}, ["a", "c"]),
               ({"type": "array", "items": {"type": "integer"}, "minItems": 2}, [[1], [1, 2]]), ({"type": "array", "items": {"type": "integer"}, "maxItems": 1}, [[1], [1, 2]]),
               ({"type": "array", "items": {"type": "integer"}, "uniqueItems": True}, [[1, 2], [1, 1]])]
